@@ -146,7 +146,10 @@ def generate(rng, tier, index):
         if kind == "fix" and not probe_only and rng.random() < 0.3:
             # a contained rule/parser fault in one file of a fix run (any pass): what is
             # announced as Fixed must still be exactly what changed
-            op["want_fault"] = [rng.random(), rng.choice(["raise", "raise_after", "badtok"]), rng.choice(["RuntimeError", "IndexError"])]
+            op["want_fault"] = [rng.random(), rng.choice(["raise", "raise_after", "badtok", "oserror", "oserror"]), rng.choice(["RuntimeError", "IndexError"])]
+            if op["want_fault"][1] == "oserror":
+                # an operating-system error at one step of the fix (possibly persistent)
+                op["want_fault"][2] = [rng.choice(["EPERM", "EACCES", "ENOSPC", "EIO"]), rng.random() < 0.5]
             if "--continue-on-error" not in op["rt"]["argv"] and rng.random() < 0.7:
                 op["rt"]["argv"] = ["--continue-on-error"] + op["rt"]["argv"]
                 op["flags"] = ["--continue-on-error"] + op["flags"]
@@ -184,6 +187,17 @@ def _plan(sc, builtin_ids):
                 site = sites[-1] if fraction < 0.7 else sites[int(fraction * len(sites)) % len(sites)]
                 plan.append({"site": site[0], "file": site[1], "ord": site[2], "op": index, "act": "oserror:" + code})
     for index, (fraction, act, exc) in wanted:
+        if act == "oserror":
+            wanted_ops = ("rename", "copymode", "chmod", "mkstemp", "open-w", "write", "close", "copyfile", "remove")
+            sites = [s for s in dry["result"]["sites"] if s[3] == index and s[0].startswith("fs/") and s[0].split("/")[1] in wanted_ops]
+            if not sites:
+                continue
+            site = sites[int(fraction * len(sites)) % len(sites)]
+            entry = {"site": site[0], "file": site[1], "ord": site[2], "op": index, "act": "oserror:" + exc[0]}
+            if exc[1]:
+                entry["sticky"] = True
+            plan.append(entry)
+            continue
         if act == "badtok":
             sites = [s for s in dry["result"]["sites"] if s[3] == index and s[0] == "parse"]
         else:
@@ -398,7 +412,10 @@ def evaluate(sc):
         if tree[name] != initial[name]:
             out.append(violation("C10/readonly-file-modified", "C10/readonly-file-modified", {"file": name}))
             break
-    if reply.get("tmp"):
+    removal_fault = any(
+        plan[i]["act"].startswith("oserror") and plan[i]["site"].split("/")[1] in ("remove", "rename") for i in (result.get("fired") or []) if i < len(plan)
+    )
+    if reply.get("tmp") and not removal_fault:  # (an injected refusal to remove a file leaves that file)
         out.append(
             violation(
                 "C10/temp-left-behind",
